@@ -477,6 +477,13 @@ func (p *Program) Files(withDriver bool) map[string]string {
 						c.renderSet(s)
 					}
 				}
+				for k, bi := range p.InjBlankImports {
+					c.imports[bi] = "_"
+					_ = k
+				}
+				if p.InjRaw != "" {
+					c.pf("%s\n", p.InjRaw)
+				}
 			}
 			name := "wire.go"
 			if f > 0 {
